@@ -85,6 +85,25 @@ CLAIMS = {
         "Trusted: registration is single-threaded; go/ssa.",
         "DESIGN.md 5 (C12)",
     ),
+    "C01": (
+        "path-sensitive table-accumulation rule, writer/reader key agreement by canonical form, tier-order dominance, representation (escaped-text) taint, anchoring",
+        "Decides, for every route table and request at once, that the index lookup walks is complete and ordered as stated: inserts "
+        "never forget earlier routes, every allowed method is keyed, writer and reader compute tier keys the same way, tiers are "
+        "searched static -> cache -> first-segment -> residual with first regexp match in registration order winning, escaped pattern "
+        "text never reaches a value compared with raw request text, every pattern is anchored at both ends. It does not decide that "
+        "the generated regexp accepts exactly the documented pattern language.",
+        "Trusted: regexp semantics; go/ssa range-loop lowering; the pattern->regexp translation itself (not decided).",
+        "DESIGN.md 5 (C01)",
+    ),
+    "C02": (
+        "per-iteration path counting (one name and one capture group per variable), registration-invariant dominance (group count == name count), who-may-write, value-pair provenance",
+        "Decides for all accepted patterns: the i-th capture group corresponds to the i-th variable name (exactly one of each per loop "
+        "iteration on every path; registration panics unless NumSubexp == len(names)), parameters reach the context only from the "
+        "match that selected the route, the cache stores and returns exactly the pair the miss path returned, static routes expose "
+        "none. It does not decide that the values equal the path substrings (run-time regexp behaviour).",
+        "Trusted: regexp submatch indexing (documented); go/ssa.",
+        "DESIGN.md 5 (C02)",
+    ),
 }
 
 NOT_APPLICABLE = {}
